@@ -71,8 +71,14 @@ static void fill_payload(uint8_t *p, uint32_t L, uint32_t i, uint32_t k, int pay
 }
 
 int g_session_preprobe;
-static void preprobe(of_session_t *ses, const cfg_t *c)
+unsigned g_session_verbosity;   /* verbosity handed to of_create_codec_instance (what the library prints is discarded) */
+int g_force_closure_monitor;     /* the peeling-closure monitor of C04 reports under the current property (used by C09) */
+static void preprobe(of_session_t *unused, const cfg_t *c, int type)
 {
+	/* of_openfec_api.h: after OF_STATUS_FATAL_ERROR "the caller is expected to stop using this codec instance immediately", and that
+	 * is what a refused of_set_fec_parameters returns. So the refused sets go to instances of their own, which are then released
+	 * (nothing else is done with them); the session under test starts on a fresh instance right afterwards. */
+	(void)unused;
 	cfg_t bad[2] = { *c, *c }; char pb[32];
 	switch (c->codec) {
 	case 5: bad[0].r = 1; bad[1].r = c->r > 2 ? c->r - 1 : 1; if (c->k == 4 || c->k == 9 || c->k == 16) bad[1].r = 1; break;  /* r = 1 is never d + l; r - 1 is not for non-square k */
@@ -86,7 +92,11 @@ static void preprobe(of_session_t *ses, const cfg_t *c)
 			if (grid) continue;
 		}
 		cfg_params(&bad[i], pb);
-		LIB_ENTER(); of_status_t st = of_set_fec_parameters(ses, (of_parameters_t *)pb); LIB_LEAVE();
+		of_session_t *ses = NULL;
+		LIB_ENTER(); of_status_t st = of_create_codec_instance(&ses, (of_codec_id_t)c->codec, (of_codec_type_t)type, 0); LIB_LEAVE();
+		if (st != OF_STATUS_OK || !ses) continue;
+		LIB_ENTER(); st = of_set_fec_parameters(ses, (of_parameters_t *)pb); LIB_LEAVE();
+		LIB_ENTER(); of_release_codec_instance(ses); LIB_LEAVE();
 		if (st == OF_STATUS_OK) { char key[96]; snprintf(key, sizeof key, "accept-outside:%s:preprobe", codec_name(c)); if (ON("C09")) rep_viol(key, "k=%u r=%u N1=%u seed=%u accepted", bad[i].k, bad[i].r, bad[i].N1, bad[i].seed); rep_count("preprobe_parameter_sets_accepted", 1); }
 		else rep_count("refused_parameter_sets_offered_before_the_real_ones", 1);
 	}
@@ -99,10 +109,10 @@ int block_build(block_t *b, const cfg_t *c, int payload, rng_t *rng, uint64_t nu
 	uint32_t n = b->n, k = c->k, L = c->L;
 	of_session_t *ses = NULL; char pbuf[32]; of_status_t st;
 	led_reset(); g_led_bad_free = 0;
-	LIB_ENTER(); st = of_create_codec_instance(&ses, (of_codec_id_t)c->codec, OF_ENCODER, 0); LIB_LEAVE();
+	LIB_ENTER(); st = of_create_codec_instance(&ses, (of_codec_id_t)c->codec, OF_ENCODER, g_session_verbosity); LIB_LEAVE();
 	rep_count("api_create", 1);
 	if (st != OF_STATUS_OK || !ses) { rep_viol("encoder-create-failed", "codec=%s status=%d", codec_name(c), st); return -1; }
-	if (g_session_preprobe) preprobe(ses, c);
+	if (g_session_preprobe) preprobe(ses, c, OF_ENCODER);
 	cfg_params(c, pbuf);
 	LIB_ENTER(); st = of_set_fec_parameters(ses, (of_parameters_t *)pbuf); LIB_LEAVE();
 	rep_count("api_set_fec_parameters", 1);
@@ -389,7 +399,7 @@ static void snapshot(hctx_t *h, int final)
 	}
 	if (h->complete_prev && !complete && ON("C10")) { key2(key, sizeof key, "complete-reverted", h->cname); rep_viol(key, "completion reported earlier and not any more"); }
 	/* C04: streaming availability equals the peeling closure */
-	if ((h->mon & MON_C04) && h->peel && !h->in_finish && h->hi->api == 0 && ON("C04")) {
+	if ((h->mon & MON_C04) && h->peel && !h->in_finish && h->hi->api == 0 && (ON("C04") || g_force_closure_monitor)) {
 		int closure_all = 1;
 		for (uint32_t i = 0; i < k; i++) {
 			if (!h->peel->known[i]) closure_all = 0;
@@ -422,11 +432,11 @@ void run_history(const block_t *b, const hist_t *hi, unsigned mon, hres_t *res)
 	if (hi->reenter) nested_prepare(c);
 	led_reset(); g_led_bad_free = 0;
 	of_codec_type_t type = hi->roles ? OF_ENCODER_AND_DECODER : OF_DECODER;
-	LIB_ENTER(); st = of_create_codec_instance(&H.ses, (of_codec_id_t)c->codec, type, 0); LIB_LEAVE();
+	LIB_ENTER(); st = of_create_codec_instance(&H.ses, (of_codec_id_t)c->codec, type, g_session_verbosity); LIB_LEAVE();
 	rep_count("api_create", 1); res->lib_calls++;
 	if (st != OF_STATUS_OK || !H.ses) { rep_viol("decoder-create-failed", "codec=%s status=%d", H.cname, st); return; }
 	if (hi->stop == 1) goto release;
-	if (g_session_preprobe) preprobe(H.ses, c);
+	if (g_session_preprobe) preprobe(H.ses, c, (int)type);
 	cfg_params(c, pbuf);
 	LIB_ENTER(); st = of_set_fec_parameters(H.ses, (of_parameters_t *)pbuf); LIB_LEAVE();
 	rep_count("api_set_fec_parameters", 1); res->lib_calls++;
@@ -520,6 +530,11 @@ void run_history(const block_t *b, const hist_t *hi, unsigned mon, hres_t *res)
 				snprintf(key, sizeof key, "finish-status:%s:ret=%d:complete=%d:was-complete=%d", H.cname, st, complete, was_complete);
 				rep_viol(key, "of_finish_decoding returned %d, is_decoding_complete=%d afterwards (complete before: %d, %d distinct symbols)", st, complete, was_complete, res->n_received_distinct);
 			}
+		}
+		if (ON("C10") && !complete) {
+			/* "complete exactly when all k source symbols are available": the application handed every one of them over itself */
+			uint32_t have = 0; for (uint32_t i = 0; i < k; i++) have += H.submitted[i] != 0;
+			if (have == k) { key2(key, sizeof key, "complete-flag-mismatch", H.cname); rep_viol(key, "all %u source symbols were submitted by the application, of_finish_decoding returned %d and decoding is not reported complete", k, st); }
 		}
 		if (H.rs && ON("C02")) {
 			if (res->n_received_distinct >= (int)k && !complete) { snprintf(key, sizeof key, "mds-fail:%s", H.cname); rep_viol(key, "%d >= k distinct symbols, finish_decoding=%d, not complete", res->n_received_distinct, st); }
